@@ -178,6 +178,16 @@ pub fn run(ctx: &Ctx) -> i32 {
             check_case(ctx, st, &tcs, s);
         });
     }
+    // literal text resembling class tokens next to members of that class
+    {
+        let look = gen::token_lookalike_cases();
+        let extra = [0, REP, REP | ESC, REP | VERB, REP | CAP, CI];
+        par_for(&ctx.run, look.len() * extra.len(), |i, st| {
+            let (tcs, f) = &look[i % look.len()];
+            st.count("token_lookalike_cases");
+            check_case(ctx, st, tcs, Settings::new(f | extra[i / look.len()]));
+        });
+    }
     let n = if ctx.thorough { 200_000 } else { 8_000 };
     let alphabets: Vec<(String, Vec<String>)> = gen::ALPHABETS.iter().map(|a| (a.to_string(), gen::alphabet(a))).collect();
     par_for(&ctx.run, n, |i, st| {
